@@ -768,8 +768,15 @@ func (d *DeletingComposedResourceGarbageCollector) GarbageCollectComposedResourc
 		// Delete the composed resource. We only want to delete the resource we
 		// observed: if it was deleted and another object was created with the
 		// same name in the meantime, that object is not ours to delete.
+		// The update above left us with the resource version it produced: if the
+		// resource changed since (for example its controller did), it is not
+		// the object we checked any more.
 		uid := cd.Resource.GetUID()
-		if err := d.client.Delete(ctx, cd.Resource, client.Preconditions{UID: &uid}); resource.IgnoreNotFound(err) != nil {
+		pre := client.Preconditions{UID: &uid}
+		if rv := cd.Resource.GetResourceVersion(); rv != "" {
+			pre.ResourceVersion = &rv
+		}
+		if err := d.client.Delete(ctx, cd.Resource, pre); resource.IgnoreNotFound(err) != nil {
 			return errors.Wrapf(err, errFmtDeleteCD, name, cd.Resource.GetObjectKind().GroupVersionKind().Kind, cd.Resource.GetName())
 		}
 	}
